@@ -191,3 +191,59 @@ def f64(x):
 
 def bits_to_f64(n):
     return struct.unpack('<d', struct.pack('<Q', n))[0]
+
+
+# ---- generic per-path obligation helper -------------------------------------------------------------------
+
+def path_obligations(paths, vio_of, cex_of, replay, name, timeout_s=120, allowed_exc=(), candidate_only=False,
+                     classify=None, exc_cex=True):
+    """For every explored path: if the program raised something not in allowed_exc -> obligation 'no exception'
+    (sat when the path is feasible); otherwise query pc and vio_of(path) (a z3 formula, a list of (name, formula),
+    or None for 'nothing to check')."""
+    obs = []
+    for i, P in enumerate(paths):
+        if P.kind == 'exc' and not isinstance(P.exc, tuple(allowed_exc)):
+            st, mod, t = solve([], timeout_s, P.pc)
+            cex = cex_of(mod, P) if st == 'sat' else None
+            o = Obligation('%s: no exception on path %d (%s: %s)' % (name, i, P.exc_name(), str(P.exc)[:120]), st, t, cex,
+                           candidate_only=candidate_only)
+            obs.append(_replayed(o, replay, classify))
+            continue
+        v = vio_of(P)
+        if v is None:
+            continue
+        items = v if isinstance(v, list) else [(name, v)]
+        for nm, f in items:
+            st, mod, t = solve([f], timeout_s, P.pc)
+            cex = cex_of(mod, P) if st == 'sat' else None
+            o = Obligation('%s, path %d' % (nm, i), st, t, cex, candidate_only=candidate_only)
+            obs.append(_replayed(o, replay, classify))
+    return obs
+
+
+def _replayed(o, replay, classify=None):
+    if o.status == 'sat' and o.cex is not None:
+        try:
+            o.reproduced, o.detail = replay(o.cex)
+        except Exception as e:
+            import traceback
+            o.reproduced, o.detail = False, 'replay crashed: %r %s' % (e, traceback.format_exc()[-600:])
+        if o.reproduced and classify is not None:
+            o.known_key = classify(o.cex)
+    return o
+
+
+def reach_obligation(P, check_real, timeout_s=60):
+    """reachability twin: a model of the path; check_real(model) -> (ok, detail) compares with the real code"""
+    st, mod, t = solve([], timeout_s, P.pc)
+    o = Obligation('reachability witness', st, t, kind='reach')
+    if st == 'sat':
+        try:
+            o.reproduced, o.detail = check_real(mod)
+        except Exception as e:
+            o.reproduced, o.detail = False, 'witness replay crashed: %r' % (e,)
+    return o
+
+
+def real_to_float(fr):
+    return float(fr)
